@@ -381,6 +381,9 @@ func (r *renderer) rulesText(rules []Rule) string {
 					}
 					if it.Note != "" {
 						v += " // " + it.Note
+						if r.l.NoteTab || j%2 == 0 {
+							v += " \t " // blanks after a comment are not part of it
+						}
 					}
 					v += r.l.NL
 				}
